@@ -444,23 +444,45 @@ pub fn run_c03(out: &mut Out, thorough: bool, seed: u64) {
     for (bits, batch, t) in [(4usize, 30usize, 3u64), (8, 40, 4), (12, 25, 2)] {
         heavy_hitters(out, &mut rng, bits, if thorough { batch * 2 } else { batch }, t);
     }
-    // a tree deeper than 21845 levels: the correlated-randomness fast-forward (u16 overflow before the fix)
-    if thorough {
+    // deep trees: levels beyond 21845 (the correlated-randomness fast-forward multiplies the level by
+    // three) and the maximal input length 2^16 with its last level 65535
+    {
         type P = Poplar1<prio::vdaf::xof::XofTurboShake128, 32>;
         use prio::vdaf::Client;
-        let bits = 21_850;
-        let vdaf: P = Poplar1::new_turboshake128(bits);
-        let input = rand_bits(&mut rng, bits);
-        let nonce = [1u8; 16];
-        let (public, shares) = vdaf.shard(b"", &IdpfInput::from_bools(&input), &nonce).unwrap();
-        for level in [21_845usize, 21_846, 21_848] {
-            let ap = Poplar1AggregationParam::try_from_prefixes(vec![IdpfInput::from_bools(&input[..level + 1])]).unwrap();
-            let r: Vec<_> = (0..2).map(|id| catch(AssertUnwindSafe(|| vdaf.verify_init(&[0; 32], b"", id, &ap, &nonce, &public, &shares[id])))).collect();
-            let ok = match (&r[0], &r[1]) {
-                (Ok(Ok((_, a))), Ok(Ok((_, b)))) => vdaf.verifier_shares_to_message(b"", &ap, [a.clone(), b.clone()]).is_ok(),
-                _ => false,
+        let deep: &[(usize, &[usize])] = if thorough { &[(21_850, &[21_845, 21_846, 21_848]), (65_536, &[65_534, 65_535])] } else { &[(21_850, &[21_846]), (65_536, &[65_535])] };
+        for &(bits, levels) in deep {
+            let vdaf: P = Poplar1::new_turboshake128(bits);
+            let input = rand_bits(&mut rng, bits);
+            let nonce = [1u8; 16];
+            let Ok((public, shares)) = vdaf.shard(b"", &IdpfInput::from_bools(&input), &nonce) else {
+                out.oracle(false, || format!("deep tree bits={}", bits), || "sharding failed".into());
+                continue;
             };
-            out.oracle(ok, || format!("deep tree bits={} level={}", bits, level), || "honest report not accepted in the first round".into());
+            for &level in levels {
+                let mut sib = input[..level + 1].to_vec();
+                sib[level] = !sib[level];
+                let mut cands = vec![input[..level + 1].to_vec(), sib];
+                cands.sort();
+                let on_path = cands.iter().position(|c| c[..] == input[..level + 1]).unwrap();
+                let apr = Poplar1AggregationParam::try_from_prefixes(cands.iter().map(|p| IdpfInput::from_bools(p)).collect());
+                out.oracle(apr.is_ok(), || format!("deep tree bits={} level={}", bits, level), || "admissible aggregation parameter rejected".into());
+                let Ok(ap) = apr else { continue };
+                let r = catch(AssertUnwindSafe(|| -> Option<Vec<u64>> {
+                    let (s0, v0) = vdaf.verify_init(&[0; 32], b"", 0, &ap, &nonce, &public, &shares[0]).ok()?;
+                    let (s1, v1) = vdaf.verify_init(&[0; 32], b"", 1, &ap, &nonce, &public, &shares[1]).ok()?;
+                    let m = vdaf.verifier_shares_to_message(b"", &ap, [v0, v1]).ok()?;
+                    let (VerifyTransition::Continue(s0, v0), VerifyTransition::Continue(s1, v1)) = (vdaf.verify_next(b"", s0, m.clone()).ok()?, vdaf.verify_next(b"", s1, m).ok()?) else { return None };
+                    let m = vdaf.verifier_shares_to_message(b"", &ap, [v0, v1]).ok()?;
+                    let (VerifyTransition::Finish(o0), VerifyTransition::Finish(o1)) = (vdaf.verify_next(b"", s0, m.clone()).ok()?, vdaf.verify_next(b"", s1, m).ok()?) else { return None };
+                    let a0 = vdaf.aggregate(&ap, [o0]).ok()?;
+                    let a1 = vdaf.aggregate(&ap, [o1]).ok()?;
+                    vdaf.unshard(&ap, [a0, a1], 1).ok()
+                }));
+                let mut want = vec![0u64; 2];
+                want[on_path] = 1;
+                out.oracle(matches!(&r, Ok(Some(c)) if *c == want), || format!("deep tree bits={} level={}", bits, level), || format!("honest report: got {:?}, want counts {:?}", r.as_ref().ok(), want));
+                out.count("c03.deep");
+            }
         }
     }
     out.samples = out.ops.iter().step_by(out.ops.len() / 6 + 1).map(|s| s.chars().take(300).collect()).collect();
